@@ -200,7 +200,7 @@ fn inval_strategy() -> BoxedStrategy<Inval> {
 
 pub fn run(ctx: &Ctx, c: &Case, o: &mut Outcome) {
     // world: the identity is registered, so that a valid request is a valid membership
-    let world = c01::Case { req: c.req.clone(), pre: vec![], post: vec![], entry: Entry::FromTree, place: c01::Place::SetLeaf };
+    let world = c01::Case { req: c.req.clone(), pre: vec![], post: vec![], entry: Entry::FromTree, place: c01::Place::SetLeaf, second: None };
     let (mut r, m): (RLN, TreeModel) = match c01::build_world(&world) {
         Ok(x) => x,
         Err(e) => {
@@ -289,6 +289,24 @@ pub fn run(ctx: &Ctx, c: &Case, o: &mut Outcome) {
             let _ = fr_to_big;
         }
     }
+    // a refused / failed request must leave the instance usable: every third such case proves the
+    // plain valid request on the same instance afterwards, which must succeed and verify
+    if !o.failed() && c.inval != Inval::Valid && case_hash(c) % 3 == 0 {
+        let req_bytes = c.req.encode();
+        let mut out2 = vec![];
+        o.label("valid-request-after-a-refused-one");
+        match guarded(|| r.generate_rln_proof(Cursor::new(req_bytes), &mut out2).map_err(|e| e.to_string())) {
+            Ok(Ok(())) => {
+                let v = call_verify_rln(&r, &verify_input(&out2, &c.req.signal.expand()));
+                o.evals += 2;
+                if !v.is_true() {
+                    vfail!(o, "after a {} request on the {:?} entry, the valid request on the same instance returned a message that verification rejects: {v:?}", inval_name(&c.inval), c.via);
+                }
+            }
+            Ok(Err(e)) => vfail!(o, "after a {} request on the {:?} entry, the valid request on the same instance was refused: {e}", inval_name(&c.inval), c.via),
+            Err(pn) => vfail!(o, "after a {} request on the {:?} entry, the valid request on the same instance panicked: {}", inval_name(&c.inval), c.via, pn.0),
+        }
+    }
 }
 
 fn inval_name(i: &Inval) -> String {
@@ -303,7 +321,7 @@ impl Property for C12 {
     }
     fn rule(&self) -> String {
         "proving requests for three entry points (generate_rln_proof from tree state, generate_rln_proof_with_witness, raw prove), valid ones (C01's generator) and invalid ones by class: mid = limit, mid = limit+1+d, mid >= 2^16 with limit > mid, limit - mid > 2^16, limit = 0, mid = p-1, index in {cap, cap+1, usize::MAX}, path length 0/1/19/21, a direction value in 2..255, index vector of different length, truncation at a generated byte, trailing bytes, declared signal length longer / shorter / huge (2^32, 2^63, u64::MAX-135, u64::MAX), random bytes. Fixed part: every class (34 representatives) once on each of the three entry points; generated part: the same classes with generated requests and parameters. \
-         Oracle: Err, or Ok with a message that verification accepts (verify_rln_proof against the same tree for the tree entry, verify for witness entries); a panic or an Ok with a rejected proof is a violation; valid requests must succeed. The reference witness generator partitions witness-level requests (label only; an accepted proof for an assignment it rejects raises a harness alarm). \
+         Oracle: Err, or Ok with a message that verification accepts (verify_rln_proof against the same tree for the tree entry, verify for witness entries); a panic or an Ok with a rejected proof is a violation; valid requests must succeed; after every third invalid request the plain valid request is proved on the same instance and must succeed and verify. The reference witness generator partitions witness-level requests (label only; an accepted proof for an assignment it rejects raises a harness alarm). \
          non-trivial = any invalid class, or a valid request with mid = limit-1; distinct by case content".into()
     }
     fn assumptions(&self) -> Vec<String> {
